@@ -76,7 +76,9 @@ def history_case(rng, cid, n):
             ops.append(["replay"])
         elif r < 0.10:
             ops.append(["dump"])
-    ops += [["dump"], ["replay"], ["framing"]]
+    ops += [["dump"], ["replay"]]
+    if rng.random() < 0.25:
+        ops.append(["framing"])
     return Case(cid, ops)
 
 
